@@ -364,6 +364,31 @@ def mirror_statement_pairs(ctx, rule, only=None):
                         ctx.inst(rule, fid, '%s || %s' % (repo.norm(s1), repo.norm(s2)), True, 'exempt: ' + PAIR_EXEMPT[fid], s1, nontrivial=False)
                         continue
                     n += 1
+                    if ok:
+                        # a name both statements share must not itself be computed from ONE side only
+                        shared = {x.id for x in ast.walk(s1.value) if isinstance(x, ast.Name)} & {x.id for x in ast.walk(s2.value) if isinstance(x, ast.Name)} & free
+                        ldefs = local_defs(fn)
+                        for nm in sorted(shared):
+                            ds = [v for v, k, st in ldefs.get(nm, []) if k == 'assign']
+                            if len(ds) != 1 or len(ldefs.get(nm, [])) != 1:
+                                continue
+                            if not _role_bearing(ds[0], names):
+                                continue
+                            # only where the shared name indexes/slices the sided objects themselves (local[:end] / remote[:end]);
+                            # an index into a common object (base[start:...]) taken from one side's diff is the same on both by construction
+                            cuts_side = any(isinstance(sub, ast.Subscript) and _role_bearing(sub.value, names) and
+                                            any(isinstance(x, ast.Name) and x.id == nm for x in ast.walk(sub.slice))
+                                            for sv in (s1.value, s2.value) for sub in ast.walk(sv))
+                            if not cuts_side:
+                                continue
+                            img2 = _PairSigma(names).visit(copy.deepcopy(ds[0]))
+                            if not _alpha_equal(img2, ds[0], free):
+                                ok = False
+                                ctx.inst(rule, fid, '%s || %s  [shared %s = %s]' % (repo.norm(s1), repo.norm(s2), nm, repo.norm(ds[0])), False,
+                                         'both sides are cut/indexed with `%s`, which is computed from one side only (`%s = %s`): correct when the two sides have the same '
+                                         'length, wrong otherwise -- the longer side loses its extra items' % (nm, nm, ast.unparse(ds[0])[:60]), s2)
+                        if not ok:
+                            continue
                     ctx.inst(rule, fid, '%s || %s' % (repo.norm(s1), repo.norm(s2)), ok,
                              'the two assignments are mirror images of each other' if ok else
                              'the assignment to %s is not the local/remote mirror image of the assignment to %s (expected `%s`): the two sides are treated differently'
